@@ -144,6 +144,10 @@ def templates(uni: qgen.Universe, rng: random.Random) -> List[T]:
         add(f"ds.Select(lambda e: {C}.Select(lambda j: j.vals().First()).First())", ["first", "first_of_first"])
         add(f"ds.Select(lambda e: {C}.Select(lambda j: j.vals().First() * 2).First())", ["first", "first_of_first"])
         add(f"ds.Select(lambda e: {C}.Where(lambda j: j.pt() > {th}).Select(lambda j: {O}.First().{meth}() + j.{meth}()).First())", ["first", "first_of_first", "where"], u2)
+        # a comparison chain whose later link holds a partial operation that the first link guards (refused by the unchanged
+        # translator; if it is ever accepted it has to be as lazy as Python's)
+        add(f"ds.Select(lambda e: 0 < {C}.Count() < {C}.First().pt())", ["first", "cmp_chain"])
+        add(f"ds.Select(lambda e: {C}.Where(lambda j: 0 < j.vals().Count() < j.vals().First()).Count())", ["first", "cmp_chain", "where"])
         # First of the whole collection as an object, used twice
         add(f"ds.Select(lambda e: {C}.First()).Select(lambda f: f.pt() + f.eta())", ["first", "shared"])
         add(f'ds.Select(lambda e: ({C}.First().pt(), {C}.Count()))', ["first"])
